@@ -12,6 +12,7 @@ import (
 	"os"
 	"runtime"
 	"sort"
+	"strings"
 	"sync/atomic"
 	"time"
 )
@@ -46,6 +47,15 @@ func LoadJob() (*Job, error) {
 		j.NShards = 1
 	}
 	return j, nil
+}
+
+// KindList is the list of workload kinds to cycle through: the worker's
+// default, or the comma-separated job parameter "kinds" (targeted deep runs).
+func (j *Job) KindList(def []string) []string {
+	if k := j.Params["kinds"]; k != "" {
+		return strings.Split(k, ",")
+	}
+	return def
 }
 
 type Out struct {
